@@ -29,7 +29,7 @@ from concurrent.futures import ProcessPoolExecutor
 
 from ..astutil import text, access_path, func_params, stmts_of, calls_in
 from ..ivl import I, DomainError
-from ..ivlinterp import Interp, Obj, Ret, Unsupported, as_iv, join, Aff, D
+from ..ivlinterp import Interp, Obj, Ret, Unsupported, as_iv, join, Aff, D, module_env
 from ..loader import where, AnalysisError, Repo
 
 TOL = 1e-3
@@ -102,7 +102,9 @@ class EvalInterp(Interp):
         if isinstance(n.func, ast.Attribute) and isinstance(n.func.value, ast.Name) and env.get(n.func.value.id) is self.selfo \
                 and n.func.attr in self.cls.methods:
             args = [self.ev(a, env) for a in n.args]
-            return self.call_function(self.cls.methods[n.func.attr], args, {}, self_obj=self.selfo)
+            meth = self.cls.methods[n.func.attr]
+            static = any(isinstance(d, ast.Name) and d.id == "staticmethod" for d in meth.decorator_list)
+            return self.call_function(meth, args, {}, self_obj=None if static else self.selfo)
         return super().e_Call(n, env)
 
 
@@ -142,7 +144,7 @@ def bnb(task):
     repo = Repo(root)
     cls = repo.cls(cname, modname)
     cfg = fold_config(cls, n if accepts_dimension(cls) else None)
-    funcs = dict(cls.module.functions)
+    funcs = module_env(cls.module)
     box0 = [I(float(p["bounds"][0]), float(p["bounds"][1])) for p in cfg["parameters"]]
     widths0 = [max(b.width, 1e-300) for b in box0]
     if sub is not None:
@@ -312,7 +314,7 @@ def run(ctx):
         if not cfgs:
             ctx.inconclusive("R2", C, where(mod, cls.node), "no foldable configuration", key="config")
             continue
-        funcs = dict(mod.functions)
+        funcs = module_env(mod)
         any_cfg = next(iter(cfgs.values()))
         if len(any_cfg["costs"]) != 1:
             continue          # not a single-objective benchmark
